@@ -70,29 +70,34 @@ class Ctx:
         self.solver.add(e)
 
     def decide(self, cond: typing.Any) -> bool:
+        """truth value of a symbolic condition on this path.  A decision is a real fork (recorded as a bool, the condition joins the path
+        condition) or forced (only one side feasible: recorded as ('f', side); the path condition already implies it and is left alone)."""
         if self.pos < len(self.decisions):
             d = self.decisions[self.pos]
+            self.pos += 1
+            if isinstance(d, tuple) and d[0] == "f":
+                return d[1]
             assert isinstance(d, bool), "decision kind mismatch on replay (non-deterministic code under test?)"
-        else:
-            t, f = self.feasible(cond), self.feasible(z3.Not(cond))
-            if t and f:
-                self.alts.append(self.decisions[: self.pos] + [False])
-                d = True
-            elif t:
-                d = True
-            elif f:
-                d = False
-            else:
-                raise Unsupported("path condition became infeasible")
+            self.assume(cond if d else z3.Not(cond))
+            return d
+        t, f = self.feasible(cond), self.feasible(z3.Not(cond))
+        if t and f:
+            self.alts.append(self.decisions[: self.pos] + [False])
+            d = True
             self.decisions.append(d)
+            self.assume(cond)
+        elif t or f:
+            d = t
+            self.decisions.append(("f", d))
+        else:
+            raise Unsupported("path condition became infeasible")
         self.pos += 1
-        self.assume(cond if d else z3.Not(cond))
         return d
 
     def concretize(self, term: typing.Any) -> int:
         if self.pos < len(self.decisions):
             v = self.decisions[self.pos]
-            assert isinstance(v, tuple), "decision kind mismatch on replay"
+            assert isinstance(v, tuple) and v[0] == "v", "decision kind mismatch on replay"
             v = v[1]
         else:
             vals: typing.List[int] = []
